@@ -141,8 +141,24 @@ func c02Match(m map[string]any, full bool) {
 // over scalar, map over scalar, map into map), with a document-level $match
 // in every form, or $replace: true. level 0 = first further layer (full
 // menu), level 1 = probing layer (reduced menu in the quick tier).
+var c02Three bool
+
 func c02Data(level int) map[string]any {
 	m := map[string]any{}
+	if c02Three {
+		if ndChoice(2) == 0 {
+			m["b"] = 6 + level
+		} else {
+			m["c"] = map[string]any{"z": level}
+		}
+		switch ndChoice(3) {
+		case 1:
+			m["$match"] = nil
+		case 2:
+			m["$match"] = map[string]any{"a": ndScalarNN()}
+		}
+		return m
+	}
 	if level == 0 || vTier() > 0 {
 		switch ndChoice(3) {
 		case 1:
@@ -175,6 +191,13 @@ func HarnessC02_stream() {
 	layers := 1 + ndChoice(2)
 	if vTier() > 0 {
 		k = 1 + ndChoice(3)
+	}
+	c02Three = false
+	if vTier() == 0 && ndChoice(4) == 0 {
+		// quick: also three base documents, with the reduced menus throughout
+		k = 3
+		layers = 2
+		c02Three = true
 	}
 	p, _ := New()
 	model := &c02Model{parents: map[string][]string{}}
